@@ -2,6 +2,7 @@ package worlds
 
 import (
 	"crypto/tls"
+	"errors"
 	"net"
 	"net/http"
 	"sync"
@@ -29,7 +30,21 @@ func init() {
 	})
 }
 
-func runC02H(k *kernel.K) {
+// C03H — the same set-up with an HTTP/2 origin that refuses the connection (C03: whatever an
+// origin does, the client gets a 502 or a close, never a hang): the relay cannot be established,
+// and the client, which has its 200 and a TLS session that negotiated h2, must at least see the
+// connection end.
+func init() {
+	register(&World{
+		Name: "C03H", Prop: "C03", Run: func(k *kernel.K) { runC02Hx(k, true) }, MaxSteps: 4000, WarmCrypto: true,
+		Real: []string{"martian.Proxy CONNECT + MITM branch handing the decrypted connection to h2.Config.Proxy", "mitm.Config with an h2.Config, crypto/tls with ALPN"},
+		Stub: append([]string{"CONNECT+TLS client actor offering ALPN h2", "dial seam (R1) refusing the upstream connection"}, commonStub...),
+	})
+}
+
+func runC02H(k *kernel.K) { runC02Hx(k, false) }
+
+func runC02Hx(k *kernel.K, refuse bool) {
 	w := k.W
 	n := simnet.New(k)
 	n.DefaultPolicy = simnet.ChunkPolicy(w.Pick([]int{5, 3, 1, 1, 0, 2}))
@@ -37,7 +52,12 @@ func runC02H(k *kernel.K) {
 	mc := env.mitmConfig()
 	mc.SetH2Config(&h2.Config{AllowedHostsFilter: func(string) bool { return true }, RootCAs: env.pool})
 	var origin *simnet.Conn
+	dialAttempts := 0
 	h2.VerifDial = func(network, addr string, cfg *tls.Config) (net.Conn, error) {
+		dialAttempts++
+		if refuse {
+			return nil, &net.OpError{Op: "dial", Net: network, Err: errors.New("connection refused")}
+		}
 		a, b := n.Pair("relay.sc", "h2origin", "10.0.0.1:50001", simnet.Addr(addr))
 		b.OnData(func([]byte) {}, func() {}, func() {})
 		origin = b
@@ -123,8 +143,19 @@ func runC02H(k *kernel.K) {
 	k.Probe("h2_tunnel_established")
 	// the HTTP/2 session starts: preface and an empty SETTINGS frame, then it idles
 	cl.Send("", append([]byte(http2.ClientPreface), 0, 0, 0, 4, 0, 0, 0, 0, 0))
-	wait(func() bool { return origin != nil })
+	wait(func() bool { return origin != nil || dialAttempts > 0 })
 	k.Drain()
+	if refuse {
+		k.Probe("h2_origin_refuses_connection")
+		cl.mu.Lock()
+		eof := cl.EOF
+		cl.mu.Unlock()
+		if !eof {
+			k.Fail("C03.outcome_class", map[string]string{"fault": "h2_dial_refused", "region": "connect"}, "the HTTP/2 origin refused the connection (the dial seam returned an error) after the client had its 200, a TLS session that negotiated h2 and had sent its preface: at network quiescence the client has neither an answer nor the end of its connection; martian goroutines: %s", kernel.FormatSummary(kernel.CensusSummary(k.Census(), "martian/v3.")))
+		}
+		finish()
+		return
+	}
 	mu.Lock()
 	cr, id, rq, rs := connectReq, ctxID, reqRuns, resRuns
 	mu.Unlock()
